@@ -102,8 +102,13 @@ def run(check, ctx):
              expected="multiplicative inverse in GF(2^128); zero refused with ValueError")
     wrong = []
     fn = repo.func(mod, "_Element.__pow__")
-    for a, e in ((2, 3), (M127, 2), (ONES, 3), (3, 7), (0x87, 20), (5, 1)):
-        itp = Interp(repo, max_depth=4, budget=3000000)
+    # incl. every (index, k) whose carry-less power has degree exactly 128 (x^128 and x^128 + 1 are below the modulus as
+    # integers but not reduced), and powers that wrap further
+    POWS = ((2, 3), (M127, 2), (ONES, 3), (3, 7), (0x87, 20), (5, 1), (256, 16), (257, 16), (16, 32), (17, 32), (4, 64), (5, 64),
+            (1 << 64, 2), ((1 << 64) + 1, 2), (2, 128), (3, 128), (258, 16), (2, 127), (2, 129), (6, 64), (1 << 32, 4), (0, 3), (1, 200))
+    for a, e in POWS:
+        itp = Interp(repo, max_depth=4, budget=30000000)
+        itp.for_limit = 400
         st = State()
         A = realise(el(a), itp, st, {})
         res = itp.run(mod, fn, {"exponent": e}, self_obj=A, state=st)
@@ -111,7 +116,7 @@ def run(check, ctx):
         if got != gf2.powfield(a, e):
             wrong.append("%s ** %d = %s, expected %s" % (hex(a), e, got, hex(gf2.powfield(a, e))))
     check.ob("K-pw", "K-pw|gf.pow", not wrong, mod.path, fn.lineno,
-             extracted="; ".join(wrong[:3]) if wrong else "6 cases: repeated field multiplication",
+             extracted="; ".join(wrong[:3]) if wrong else "%d cases (incl. powers of degree exactly 128 before reduction): repeated field multiplication" % len(POWS),
              expected="a ** e in GF(2^128)")
     from . import c20_extra
     c20_extra.run(check, ctx, value_of)
